@@ -458,6 +458,44 @@ class Dns(Scenario):
         self.flow.request.questions[0].name = EDIT.decode().lower().replace("-", "") + ".example"
 
 
+def _dns_reply(qid, label):
+    """answer to _dns_query: one A record whose owner repeats the question name (the marker)"""
+    q = b"\x05query\x07example\x00"
+    owner = bytes([len(label)]) + label + b"\x07example\x00"  # the marker occurs once: as the owner of the answer record
+    return (struct.pack("!HHHHHH", qid, 0x8180, 1, 1, 0, 0) + q + struct.pack("!HH", 1, 1)
+            + owner + struct.pack("!HHIH", 1, 1, 60, 4) + bytes([192, 0, 2, 1]))
+
+
+class DnsResponse(Dns):
+    """the query passes; the upstream answer is held in its dns_response hook"""
+
+    target = "dns_response"
+    name = "dns-response"
+    replace_attr = "response"
+
+    def setup(self):
+        self.d.start()
+        self.d.data(self.ctx.client, _dns_query(0x1111, b"query"))
+        self.d.data(self.d.opened[0] if self.d.opened else self.ctx.server, _dns_reply(0x1111, MARK.lower().replace(b"-", b"")))
+
+    def dest(self):
+        return bytes(self.d.sent_to(self.ctx.client)).upper()
+
+    def meanwhile(self):
+        return ["second-query", "server-close"]
+
+    def do(self, a):
+        if a == "second-query":
+            self.d.data(self.ctx.client, _dns_query(0x2222, MARK2.replace(b"-", b"")))
+        else:
+            self.closed_meanwhile = True
+            self.d.close(self.d.opened[0] if self.d.opened else self.ctx.server)
+
+    def edit(self):
+        for rr in self.flow.response.answers:
+            rr.name = EDIT.decode().lower().replace("-", "") + ".example"
+
+
 def _m(x):
     return x.replace(b"-", b"")
 
@@ -629,6 +667,8 @@ def _make(X, proto):
         return Relay(X, proto, X.choose("direction", ["c2s", "s2c"]))
     if proto == "websocket":
         return WebSocket(X, X.choose("direction", ["c2s", "s2c"]))
+    if proto == "dns-response":
+        return DnsResponse(X)
     return Dns(X)
 
 
@@ -637,9 +677,9 @@ def h_hold(X, proto, K):
     name = S.name
     S.setup()
     X.check(S.pending is not None, f"C11/{name}/harness-hook-not-reached", f"hook {S.target} never fired: {S.d.hook_names}")
-    X.check(_count(S.dest(), _m(MARK) if proto == "dns" else MARK) == 0, f"C11/{name}/forwarded-before-hook-completed",
+    X.check(_count(S.dest(), _m(MARK) if proto.startswith("dns") else MARK) == 0, f"C11/{name}/forwarded-before-hook-completed",
             f"the message reached its destination before the {S.target} hook completed: {S.dest()!r}")
-    mk = (lambda b: _m(b).upper()) if proto == "dns" else (lambda b: b)
+    mk = (lambda b: _m(b).upper()) if proto.startswith("dns") else (lambda b: b)
     done = []
     for step in range(K):
         menu = ["stop"] + [a for a in S.meanwhile() if a not in done]
@@ -706,7 +746,7 @@ def h_hold(X, proto, K):
     X.reach("end")
 
 
-PROTOS = ["http1-request", "http1-response", "http2-request", "http2-response", "websocket", "tcp", "udp", "dns"]
+PROTOS = ["http1-request", "http1-response", "http2-request", "http2-response", "websocket", "tcp", "udp", "dns", "dns-response"]
 
 
 def obligations(tier):
